@@ -58,6 +58,16 @@ Holds ==
          \A s \in Inner : \A t \in Inner :
             FMul(NofApply(Ctx, Obj(Chk.z), UnitV(Ctx, s))[t], G(Ctx, t))
               = FMul(FConj(NofApply(Ctx, Obj(Chk.x), UnitV(Ctx, t))[s]), G(Ctx, s))
+    \* second-quantised Sylvester solver (C16): H_ii V - V H_jj = Y as an operator identity;
+    \* x = H_ii, y = H_jj, z = V, w = Y.  "sylvdiag": the number-conserving part of Y on a
+    \* diagonal element is not solvable and is left out -- compare off the Fock diagonal only
+    [] Chk.kind \in {"sylv", "sylvdiag"} ->
+         \A s \in Inner : LET e  == UnitV(Ctx, s)
+                              lhs == VAdd(NofApply(Ctx, Obj(Chk.x), NofApply(Ctx, Obj(Chk.z), e)),
+                                          VScale(FNeg(FOne), NofApply(Ctx, Obj(Chk.z), NofApply(Ctx, Obj(Chk.y), e))))
+                              rhs == NofApply(Ctx, Obj(Chk.w), e)
+                          IN  /\ PoleFree(Obj(Chk.z), e)
+                              /\ \A t \in 1..D(Ctx) : (Chk.kind = "sylv" \/ t # s) => lhs[t] = rhs[t]
     [] Chk.kind = "eq" ->
          \A s \in Inner : LET e == UnitV(Ctx, s) IN
             NofApply(Ctx, Obj(Chk.z), e) = NofApply(Ctx, Obj(Chk.x), e)
